@@ -7,5 +7,5 @@ CONSTANTS
   WVals = @WVALS@
   PGrid = 8
 INVARIANTS Replication ReplicationB PermInvariant PermInvariantB AffineEquivariant AffineEquivariantB
-  QuantileCoherent HistogramConserves KSDistance CorrelationBounded NormalEquations RocMonotone
+  QuantileCoherent VarianceIdentity HistogramConserves KSDistance CorrelationBounded NormalEquations RocMonotone
 CHECK_DEADLOCK FALSE
